@@ -564,4 +564,198 @@ Section Bridge.
     pose proof (D_wt_eq_D_mapping_full m Kp c Hrect Hc objs4 d s a) as H. rewrite <- Hnp in H.
     apply H; [apply np_pos | exact Hd | exact Hs | intros i Hi; specialize (Hpos i Hi); lra | apply wf04 | now rewrite tp04].
   Qed.
+
+  (* ============================================================================================== *)
+  (* Part G: the mapped reconstructed data of the two classes, for every reconstruction of the right length *)
+  Lemma slice_length (v : Rvec) lo p : (lo + p <= length v)%nat -> length (slice lo (lo + p) v) = p.
+  Proof. intro H. unfold slice. rewrite firstn_length, skipn_length. lia. Qed.
+  Lemma mapped_terms_eq (lf : list Rmat) (r : Rvec) : forall l pfx k, lf = pfx ++ map opm (fl l) ->
+    (forall o, In o l -> In o (objs inp)) ->
+    (fold_left (fun a (o : lobj R) => (a + lo_p o)%nat) l k <= length r)%nat ->
+    map2 (fun (ok : lobj R * nat) (rg : nat * nat) =>
+            let o := fst ok in
+            if lo_mapper o then conv_img KR (k_mapped_um KR (lo_mm o) (slice (fst rg) (snd rg) r))
+            else k_rowsum KR (slice (fst rg) (snd rg) r) (nth (snd ok) lf []))
+         (combine l (func_index_from (length pfx) l)) (C15.ranges_from k l)
+    = map2 (fun (B : Rmat) (rg : nat * nat) => k_mapped_mm KR B (slice (fst rg) (snd rg) r)) (map opm l) (C15.ranges_from k l).
+  Proof.
+    induction l as [|o l IH]; intros pfx k Hlf Hin Hlen; [reflexivity|].
+    cbn [func_index_from combine C15.ranges_from map2 map fst snd]. cbn [fold_left] in Hlen.
+    assert (Hle : (k + lo_p o <= length r)%nat).
+    { assert (G : forall l0 a, (a <= fold_left (fun a (o : lobj R) => (a + lo_p o)%nat) l0 a)%nat).
+      { induction l0 as [|o0 l0 IH0]; intro a; simpl; [lia|]. specialize (IH0 (a + lo_p o0)%nat). lia. }
+      specialize (G l (k + lo_p o)%nat). lia. }
+    pose proof (slice_length r k (lo_p o) Hle) as Hsl.
+    assert (Ho : In o (objs inp)) by (apply Hin; now left).
+    destruct (opm_shape o Ho) as [Hsh Hp]. pose proof (obj_wf o Ho) as W.
+    f_equal.
+    - destruct (lo_mapper o) eqn:Em.
+      + destruct W as (_ & Hov & HM & HP & He & Hrep & Hdw & Hdu). cbn [KR c04k conv_img k_mapped_um k_mapped_mm].
+        unfold C15k.opm. rewrite Hov.
+        apply (mapped_mapper_term c np (encf (lo_mm o)) (lo_mm o) (lo_p o) true); [|now destruct WF as (_ & Hfr & _) | exact Hsl].
+        split; [exact Hp|]. split; [|repeat split; assumption].
+        cbn [params opmat]. pose proof (shape_convolve_matrix c (lo_mm o)) as Hcs. fixR. now rewrite HM, HP in Hcs.
+      + cbn [KR c04k k_rowsum k_mapped_mm].
+        assert (Hn : nth (length pfx) lf [] = opm o).
+        { rewrite Hlf. unfold fl. cbn [filter]. rewrite Em. cbn [negb map]. apply nth_app_len. }
+        rewrite Hn. unfold dotv. apply (mapped_func_term (opm o) np (lo_p o)); [exact Hsh | exact Hsl].
+    - destruct (lo_mapper o) eqn:Em.
+      + apply IH; [|intros o' Ho'; apply Hin; now right | exact Hlen]. rewrite Hlf. unfold fl. cbn [filter]. now rewrite Em.
+      + replace (S (length pfx)) with (length (pfx ++ [opm o])) by (rewrite app_length; simpl; lia).
+        apply IH; [|intros o' Ho'; apply Hin; now right | exact Hlen]. rewrite Hlf. unfold fl. cbn [filter]. rewrite Em. cbn [negb map].
+        now rewrite <- app_assoc.
+  Qed.
+  Theorem mapped_same (r : Rvec) : length r = N ->
+    mapped_wt KR inp (lf_fresh KR inp) r = mapped_map KR inp (omm_list_of KR inp (lf_fresh KR inp)) r.
+  Proof.
+    intro Hr. unfold mapped_wt, mapped_map. rewrite omm_list_all. unfold ranges. f_equal.
+    apply (mapped_terms_eq (lf_fresh KR inp) r (objs inp) [] 0%nat); [apply lf_fresh_fl | auto |].
+    unfold total in Hr. rewrite Hr. apply Nat.le_refl.
+  Qed.
+
+  (* ============================================================================================== *)
+  (* Part H: the factory's choice is value-free for the concrete kernels                                *)
+  (* shape law of the solver (C05): the reconstruction has one entry per parameter *)
+  Hypothesis Hslv : forall A b sv, slv A b = Ok sv -> length sv = length b.
+
+  Lemma p_dv_length : length (p_dv KR inp None) = N.
+  Proof.
+    rewrite p_dv_map_is_D_mapping. unfold D_mapping. rewrite dv_blurred_length. fixR. rewrite Hd.
+    pose proof p_omm_shape as Hsh. rewrite p_omm_is_op_matrix in Hsh. exact (ncols_shape _ _ _ Hsh np_pos).
+  Qed.
+  Theorem c04_formalism_choice_value_free : forall q, pure KR inp (Some w) q = pure KR inp None q.
+  Proof.
+    apply formalism_choice_value_free; [exact p_dv_same | exact p_curv_same |].
+    intros sv Hsv. apply mapped_same. unfold p_rec in Hsv. cbn [KR c04k k_solve] in Hsv.
+    rewrite (Hslv _ _ _ Hsv). apply p_dv_length.
+  Qed.
 End Bridge.
+
+(* ================================================================================================ *)
+(* Part I: the two settings of use_w_tilde give the same outputs, through the factory                  *)
+Section Choice.
+  Variable c : @convolver ROps.
+  Variable m : mask.
+  Variable Kp : @kernel ROps.
+  Variable encf : Rmat -> @C04.enc ROps.
+  Variable dec : Rmat -> Rvec * list nat * list nat.
+  Variable slv : Rmat -> Rvec -> res Rvec.
+  Variable ldc ldr : Rmat -> res R.
+  Notation KR := (KR c m Kp encf dec slv ldc ldr).
+  Definition with_wt (b : bool) (inp : input R) : input R :=
+    {| in_ds := in_ds inp; in_objs := in_objs inp; in_use_wt := b; in_eps := in_eps inp |}.
+  (* everything an inversion computes ignores the flag (only the factory reads it) *)
+  Lemma pure_ignores_flag b inp mode q : pure KR (with_wt b inp) mode q = pure KR inp mode q.
+  Proof. destruct q; reflexivity. Qed.
+
+  Variable inp : input R.
+  Hypothesis Hrect : rectb m = true.
+  Hypothesis Hc : @convolver_init ROps m Kp = Ok c.
+  Hypothesis WF : wf_input c encf (length (unmasked m)) inp.
+  Hypothesis Hne : in_objs inp <> [].
+  Hypothesis Hd : length (ds_d (in_ds inp)) = length (unmasked m).
+  Hypothesis Hs : length (ds_n (in_ds inp)) = length (unmasked m).
+  Hypothesis Hpos : forall i, (i < length (unmasked m))%nat -> 0 < nth i (ds_n (in_ds inp)) 0.
+  Hypothesis Hslv : forall A b sv, slv A b = Ok sv -> length sv = length b.
+  (* dataset.w_tilde holds the preload computed from the noise map and the PSF, and passes check_noise_map *)
+  Hypothesis Hwt : dec (wt_w (ds_wt (in_ds inp))) = @preload ROps (@native ROps m (ds_n (in_ds inp))) Kp (unmasked m).
+  Hypothesis Hnv : wt_nv (ds_wt (in_ds inp)) = hd 0 (ds_n (in_ds inp)).
+
+  Theorem c04_factory_choice_value_free qs :
+    fst (run_inversion KR (with_wt true inp) code empty_store qs) = fst (run_inversion KR (with_wt false inp) code empty_store qs).
+  Proof.
+    set (w := ds_wt (in_ds inp)).
+    assert (HF : make_inversion KR (with_wt false inp) empty_store = Ok None) by reflexivity.
+    rewrite (proj1 (run_inversion_ok R KR (with_wt false inp) None empty_store qs HF (empty_consistent R KR _ None))).
+    destruct (all_func (with_wt true inp)) eqn:Ea.
+    - assert (HT : make_inversion KR (with_wt true inp) empty_store = Ok None).
+      { unfold make_inversion, choose_wt. now rewrite Ea. }
+      rewrite (proj1 (run_inversion_ok R KR (with_wt true inp) None empty_store qs HT (empty_consistent R KR _ None))).
+      apply f_equal. apply map_ext. intro q. now rewrite !pure_ignores_flag.
+    - assert (HT : make_inversion KR (with_wt true inp) empty_store = Ok (Some w)).
+      { unfold make_inversion, choose_wt. rewrite Ea. cbn [with_wt in_use_wt negb s_use_wt s_wt empty_store in_ds].
+        unfold check_noise_map. cbn [with_wt in_ds KR c04k teqb t0]. fold w. unfold w. rewrite Hnv. unfold zero. ropen. change (IZR 0) with 0.
+        assert (E : Reqb (hd 0 (ds_n (in_ds inp))) (hd 0 (ds_n (in_ds inp))) = true) by now apply Reqb_true.
+        now rewrite E. }
+      rewrite (proj1 (run_inversion_ok R KR (with_wt true inp) (Some w) empty_store qs HT (empty_consistent R KR _ (Some w)))).
+      apply f_equal. apply map_ext. intro q. rewrite !pure_ignores_flag.
+      destruct (@preload ROps (@native ROps m (ds_n (in_ds inp))) Kp (unmasked m)) as [[pre idx] lens] eqn:Ep.
+      apply (c04_formalism_choice_value_free c m Kp encf dec slv ldc ldr inp (length (unmasked m)) WF Hne w pre idx lens);
+        try assumption; try reflexivity.
+  Qed.
+End Choice.
+
+(* ================================================================================================ *)
+(* Part J: non-vacuity.  (1) EVERY mapping matrix has an encoding that stands for it (the dense one), so the hypothesis
+   on [encf] can always be met; (2) a concrete dataset / object list meeting every hypothesis of Part I.              *)
+Lemma hits_combine_seq (row : Rvec) : forall k p, (k <= p < k + length row)%nat ->
+  sumR (hits p (combine (seq k (length row)) row)) = nth (p - k) row 0.
+Proof.
+  induction row as [|x row IH]; intros k p Hp; simpl in Hp; [lia|]. cbn [length seq combine]. unfold hits. cbn [filter fst].
+  destruct (Nat.eqb k p) eqn:E.
+  - apply Nat.eqb_eq in E. subst p. rewrite Nat.sub_diag. cbn [map snd sumR nth].
+    assert (Z : sumR (hits k (combine (seq (S k) (length row)) row)) = 0).
+    { rewrite hits_as_map. apply sumR_map_zero. intros [i y] Hin. apply in_combine_l in Hin. apply in_seq in Hin.
+      cbn [fst]. assert (Nat.eqb i k = false) as -> by (apply Nat.eqb_neq; lia). reflexivity. }
+    unfold hits in Z. rewrite Z. lra.
+  - apply Nat.eqb_neq in E. fold (hits p (combine (seq (S k) (length row)) row)). rewrite IH by lia.
+    replace (p - k)%nat with (S (p - S k)) by lia. reflexivity.
+Qed.
+Lemma dense_enc_row (M : Rmat) dd : @enc_row ROps (@dense_enc ROps M) dd = combine (seq 0 (length (nth dd M []))) (nth dd M []).
+Proof.
+  unfold enc_row, dense_enc. cbn [e_pl e_du e_dw]. fixR.
+  destruct (lt_dec dd (length M)) as [L|L].
+  - rewrite (nth_map_lt (fun row : Rvec => length row) M dd [] 0%nat) by exact L.
+    rewrite (nth_map_lt (fun row : Rvec => map Z.of_nat (seq 0 (length row))) M dd [] []) by exact L.
+    rewrite map_map. rewrite (map_ext (fun x => Z.to_nat (Z.of_nat x)) (fun x => x)) by (intro; apply Nat2Z.id). rewrite map_id.
+    apply firstn_all2. rewrite combine_length, seq_length. lia.
+  - rewrite !nth_overflow by (rewrite ?map_length; lia). reflexivity.
+Qed.
+Theorem dense_enc_wf (M : Rmat) n P : shape n P M -> (0 < n)%nat ->
+  enc_ok (@dense_enc ROps M) P /\ represents (@dense_enc ROps M) M n P /\
+  length (e_dw (@dense_enc ROps M)) = n /\ length (e_du (@dense_enc ROps M)) = n /\ length M = n /\ ncolsR M = P.
+Proof.
+  intros Hsh Hn. pose proof (ncols_shape _ _ _ Hsh Hn) as Nc. destruct Hsh as [H1 H2]. fixR.
+  split; [|split; [|cbn [dense_enc e_dw e_du]; rewrite map_length; auto]].
+  - intros dd [i y] Hin. rewrite dense_enc_row in Hin. apply in_combine_l in Hin. apply in_seq in Hin. cbn [fst].
+    destruct (lt_dec dd n) as [L|L]; [rewrite H2 in Hin by exact L; lia|].
+    rewrite nth_overflow in Hin by lia. simpl in Hin. lia.
+  - intros dd p Hd Hp. unfold E. rewrite dense_enc_row. rewrite hits_combine_seq by (rewrite H2 by exact Hd; lia).
+    rewrite Nat.sub_0_r. now rewrite mget_R.
+Qed.
+
+Section Example.
+  Definition exM : mask := [[true; true; true; true]; [true; false; false; true]; [true; true; true; true]].
+  Definition exK : @kernel ROps := [[1; 2; 3]; [4; 5; 6]; [7; 8; -9]].
+  Definition exC : @convolver ROps :=
+    Eval vm_compute in match @convolver_init ROps exM exK with Ok c => c | Raise _ => @Build_convolver ROps 0 [] [] [] end.
+  Definition exInp : input R :=
+    {| in_ds := {| ds_d := [1; 2]; ds_n := [1; 2]; ds_wt := {| wt_w := []; wt_nv := 1 |} |};
+       in_objs := [ {| lo_mapper := false; lo_mm := [[3]; [4]]; lo_ovr := Some [[5]; [-6]]; lo_p := 1%nat; lo_reg := None |};
+                    {| lo_mapper := true; lo_mm := [[1]; [1]]; lo_ovr := None; lo_p := 1%nat; lo_reg := Some [[1]] |} ];
+       in_use_wt := true; in_eps := 1 |}.
+  Definition exDec (W : Rmat) : Rvec * list nat * list nat := @preload ROps (@native ROps exM [1; 2]) exK (unmasked exM).
+  Definition exSlv (A : Rmat) (b : Rvec) : res Rvec := Ok b.
+  Lemma ex_choice_hyps :
+    rectb exM = true /\ @convolver_init ROps exM exK = Ok exC /\
+    wf_input exC (@dense_enc ROps) (length (unmasked exM)) exInp /\ in_objs exInp <> [] /\
+    length (ds_d (in_ds exInp)) = length (unmasked exM) /\ length (ds_n (in_ds exInp)) = length (unmasked exM) /\
+    (forall i, (i < length (unmasked exM))%nat -> 0 < nth i (ds_n (in_ds exInp)) 0) /\
+    (forall A b sv, exSlv A b = Ok sv -> length sv = length b) /\
+    exDec (wt_w (ds_wt (in_ds exInp))) = @preload ROps (@native ROps exM (ds_n (in_ds exInp))) exK (unmasked exM) /\
+    wt_nv (ds_wt (in_ds exInp)) = hd 0 (ds_n (in_ds exInp)).
+  Proof.
+    assert (Hr : rectb exM = true) by reflexivity.
+    assert (Hc : @convolver_init ROps exM exK = Ok exC) by (vm_compute; reflexivity).
+    split; [exact Hr|]. split; [exact Hc|]. change (length (unmasked exM)) with 2%nat.
+    split; [|split; [discriminate|]]; [|repeat split; try reflexivity].
+    - split; [lia|]. split; [exact (init_frames_ok exM exK exC Hr Hc)|].
+      intros x [<-|[<-|[]]]; cbn [lo_mapper].
+      + split; [cbn; lia|]. unfold C15k.opm. cbn [lo_ovr lo_p]. split; [reflexivity|]. intros [|[|a]] Ha; try reflexivity; lia.
+      + assert (Hsh : shape 2 1 ([[1]; [1]] : Rmat)) by (split; [reflexivity|]; intros [|[|a]] Ha; try reflexivity; lia).
+        destruct (dense_enc_wf [[1]; [1]] 2 1 Hsh ltac:(lia)) as (a1 & a2 & a3 & a4 & a5 & a6).
+        cbn [lo_p lo_ovr lo_mm]. repeat split; auto; lia.
+    - intros [|[|i]] Hi; cbn; try lra; lia.
+    - intros A b sv H. injection H as <-. reflexivity.
+  Qed.
+End Example.
